@@ -67,6 +67,21 @@ fn gen_observable(rng: &mut Rng) -> Vec<String> {
     stmts.push("emit(json.encode({\"z\": [1, 2.5, None, True], \"a\": {\"n\": \"s\"}}), json.decode(\"{\\\"q\\\": [1, {\\\"b\\\": 2, \\\"a\\\": 3}]}\"))".to_owned());
     stmts.push("emit(set([3, 1, 2, \"b\", \"a\"]), {x: 1 for x in [\"delta\", \"alpha\", \"charlie\", \"bravo\"]}, hash(\"alpha\"), hash(\"\"))".to_owned());
     stmts.push("emit(len, print, [].append, \"\".join, struct, record, enum, typing.Any, list[int], dict[str, int])".to_owned());
+    // Set algebra with operands of different size / capacity, ties in sorted / max / min, values
+    // that compare equal but print differently, dir() of every kind of value.
+    stmts.push("sa = set([5, 3, 1, 4, 2, 9, 8, 7])\nsb = set([\"x\", 3, 99])\nsb.add(5)\nemit(sa | sb, sb | sa, sa & sb, sb & sa, sa - sb, sb - sa, sa ^ sb, sb ^ sa, sa.union([0]), sb.intersection(sa))".to_owned());
+    stmts.push("emit(sorted([(1, \"b\"), (1, \"a\"), (0, \"z\"), (1, \"c\")], key = lambda t: t[0]), max([(1, \"b\"), (1, \"a\")], key = lambda t: t[0]), min([3, 1.0, 1, True], key = lambda t: 0), sorted([1, 1.0, 0, 0.0, -0.0, 2]), sorted([\"b\", \"a\", \"B\", \"\"]), {1: \"i\", 2.0: \"f\"})".to_owned());
+    stmts.push("ns14 = namespace(zeta = 1, alpha = [2], mid = lambda: 3)\nRt14 = record(yy = int, xx = field(str, \"d\"), zz = field(list, []))\nrv14 = Rt14(yy = 1)\nEt14 = enum(\"q\", \"p\", \"r\")\nemit(dir(ns14), ns14, dir(rv14), rv14, dir(Et14), [e for e in Et14], Et14(\"p\"), dir(Et14(\"p\")), dir(Rt14), Rt14, dir(partial(len, [])), dir(len), dir(typing.Any))".to_owned());
+    stmts.push("def kw14(**kw):\n    return [kw, list(kw.keys()), list(kw.items())]\ndef pos14(*a, z = 1, y = 2, **kw):\n    return (a, z, y, kw)\nemit(kw14(zeta = 1, alpha = 2, mid = 3, beta = 4, omega = 5, aa = 6, ab = 7, ac = 8, ad = 9), pos14(1, 2, q = 1, y = 5, b = 2), kw14(**{\"k2\": 1, \"k1\": 2}))".to_owned());
+    stmts.push("emit(\"%r %s %d\" % ([1, \"a\"], {\"b\": (1,)}, 3), \"{z} {a}\".format(a = 1, z = [2]), str(1.5), repr(1e100), 7 // 2, 7 % -3, -7 // 2, 2.5 // 0.5, int(\"0x1f\", 16) if False else 31)".to_owned());
+    stmts.push("load(\"lib14\", \"la\", lb_alias = \"lb\", \"lc\", \"ld\")\nemit(la, ld(2))".to_owned());
+    // Never called: several ill-typed expressions in one def, bound to different variables, for the
+    // static checker (errors are rendered in the order it returns them).
+    stmts.push("def tc14(p: int, q: str):\n    v1 = p + \"s\"\n    v2 = len(p)\n    v3 = [1].nope\n    v4 = q * q\n    v5 = p.attr\n    v6 = q.nope2\n    v7 = {\"a\": 1}.missing_method()\n    return [v1, v2, v3, v4, v5, v6, v7]\ndef tc14b(p: list[int]) -> str:\n    w1 = p + 1\n    w2 = p.nope\n    return w1".to_owned());
+    // Builtins called with several unexpected names.
+    if rng.chance(1, 4) {
+        stmts.push(format!("{}(zeta = 1, alpha = 2, mid = 3, beta = 4)", rng.pick(&["len", "repr", "str", "dir", "hash", "type", "list", "enum(\"a\")"])));
+    }
     if rng.bool() {
         // A failing tail: error text with did-you-mean suggestion and call stack.
         let fails = [
@@ -90,6 +105,21 @@ fn gen_observable(rng: &mut Rng) -> Vec<String> {
             "st_tie = struct(fld_a = 1, fld_b = 2, fld_d = 3)\nemit(st_tie.fld_c)",
             "def kw_tie(par_a = 1, par_b = 2, par_d = 3):\n    return par_a\nkw_tie(par_c = 5)",
             "load(\"nonexistent_mod.star\", \"zz1\", \"zz2\")\nemit(zz1)",
+            // argument-binding errors that list names
+            "def need3(aa, bb, cc, *, kk, jj):\n    return aa\nneed3(1)",
+            "def need3(aa, bb, cc):\n    return aa\nneed3(1, 2, 3, dd = 4, ee = 5, ff = 6)",
+            "def need3(aa, bb, cc):\n    return aa\nneed3(1, 2, 3, 4, 5)",
+            "def need3(aa, bb, cc):\n    return aa\nneed3(1, aa = 2, bb = 3, cc = 4)",
+            "emit(record(xa = int, xb = str, xd = int)(xa = 1, xc = 2))",
+            "emit(record(xa = int, xb = str, xd = int)(xa = 1))",
+            "emit(namespace(fa = 1, fb = 2, fd = 3).fc)",
+            "emit(record(xa = int, xb = int, xd = int)(xa = 1, xb = 2, xd = 3).xc)",
+            "emit(enum(\"va\", \"vb\", \"vd\").vc)",
+            "load(\"lib14\", \"la\", \"lz\", \"ly\")",
+            "emit(len.nope, [].nope, {}.kys, \"s\".uper)",
+            "emit({}.kys())",
+            "emit(\"s\".uper())",
+            "emit(set([1]).ad(2))",
         ];
         stmts.push(fails[rng.usize(fails.len())].to_owned());
     }
@@ -111,10 +141,22 @@ fn observe_program_inner(idx: usize, text: &str) -> Vec<String> {
     let name = format!("p{idx}.star");
     let printer = kit::TranscriptPrinter;
     let mut lines: Vec<String> = Vec::new();
+    // A small frozen library for load().
+    let lib = Module::with_temp_heap(|m| {
+        {
+            let mut e = Evaluator::new(&m);
+            if let Ok(ast) = kit::parse("lib14.star", "la = [1, {\"k\": 2}]\nlb = \"b\"\nlc = struct(q = 1)\ndef ld(x):\n    return [x, la]\nlx = 1\nlw = 2\n") {
+                let _ = e.eval_module(ast, kit::globals());
+            }
+        }
+        m.freeze()
+    });
+    let loader = kit::MapLoader { modules: lib.ok().map(|l| [("lib14".to_owned(), l)].into_iter().collect()).unwrap_or_default() };
     // 1. Evaluation.
     Module::with_temp_heap(|module| {
         let mut eval = Evaluator::new(&module);
         eval.set_print_handler(&printer);
+        eval.set_loader(&loader);
         match kit::parse(&name, text) {
             Err(e) => kit::ctx(|c| c.transcript.push(format!("parse-error {e}"))),
             Ok(ast) => match eval.eval_module(ast, kit::globals()) {
@@ -132,6 +174,18 @@ fn observe_program_inner(idx: usize, text: &str) -> Vec<String> {
         let unsorted = names.clone();
         names.sort();
         kit::ctx(|c| c.transcript.push(format!("names-in-api-order {unsorted:?}")));
+        drop(eval);
+        // The frozen module as the embedder sees it: names, description and documentation in the
+        // order the API returns them.
+        if let Ok(fm) = module.freeze() {
+            let fnames: Vec<String> = fm.names().map(|n| n.as_str().to_owned()).collect();
+            let doc = fm.documentation();
+            let members: Vec<String> = doc.members.keys().cloned().collect();
+            let l1 = format!("frozen-names-in-api-order {fnames:?}");
+            let l2 = format!("doc-members-in-api-order {members:?}");
+            let l3 = format!("describe {}", fm.describe());
+            kit::ctx(|c| c.transcript.extend([l1, l2, l3]));
+        }
     });
     lines.extend(kit::take_transcript());
     // 2. Static type checker: errors in the order returned, interface by sorted module names.
